@@ -291,6 +291,9 @@ package document
 //@ ensures err == nil ==> forall s *SectionProperties, k int :: {s.HeaderReferences[k]} allocated(s) && old(isFirstSect(d.Body.Elements, s)) && old(hdrFirstAt(s.HeaderReferences, k, string(headerType))) && old(hdrCanon(s.HeaderReferences, d.documentRelationships.Relationships)) ==> hdrCanon(s.HeaderReferences, d.documentRelationships.Relationships)
 //@ ensures err == nil ==> forall s *SectionProperties :: {s.FooterReferences} allocated(s) && old(isFirstSect(d.Body.Elements, s)) && old(ftrCanon(s.FooterReferences, d.documentRelationships.Relationships)) ==> ftrCanon(s.FooterReferences, d.documentRelationships.Relationships)
 //@ ensures unchangedExcept("map:string:[]byte", "Relationships.Relationships", "Relationship.*", "ContentTypes.Overrides", "Override.*", "Body.Elements", "cell:any", "SectionProperties.XmlnsR", "SectionProperties.HeaderReferences", "HeaderFooterReference.ID", "cell:*HeaderFooterReference")
+// (C02, package-wide invariant docRelsResolve - zz_contracts_verif_pkg.go) every internal relationship of the list still names a part that is
+// present: the (found or new) relationship's target is the part just stored, relative to word/; earlier entries and parts stay
+//@ ensures err == nil && old(docRelsResolve(d)) ==> docRelsResolve(d)
 
 //@ func (*Document).AddFooter
 //@ props C11, C02
@@ -350,6 +353,9 @@ package document
 //@ ensures err == nil ==> forall s *SectionProperties, k int :: {s.FooterReferences[k]} allocated(s) && old(isFirstSect(d.Body.Elements, s)) && old(ftrFirstAt(s.FooterReferences, k, string(footerType))) && old(ftrCanon(s.FooterReferences, d.documentRelationships.Relationships)) ==> ftrCanon(s.FooterReferences, d.documentRelationships.Relationships)
 //@ ensures err == nil ==> forall s *SectionProperties :: {s.HeaderReferences} allocated(s) && old(isFirstSect(d.Body.Elements, s)) && old(hdrCanon(s.HeaderReferences, d.documentRelationships.Relationships)) ==> hdrCanon(s.HeaderReferences, d.documentRelationships.Relationships)
 //@ ensures unchangedExcept("map:string:[]byte", "Relationships.Relationships", "Relationship.*", "ContentTypes.Overrides", "Override.*", "Body.Elements", "cell:any", "SectionProperties.XmlnsR", "SectionProperties.FooterReferences", "FooterReference.ID", "cell:*FooterReference")
+// (C02, package-wide invariant docRelsResolve - zz_contracts_verif_pkg.go) every internal relationship of the list still names a part that is
+// present: the (found or new) relationship's target is the part just stored, relative to word/; earlier entries and parts stay
+//@ ensures err == nil && old(docRelsResolve(d)) ==> docRelsResolve(d)
 
 //@ func (*Document).AddHeaderWithPageNumber
 //@ props C11, C02
@@ -425,6 +431,9 @@ package document
 //@ ensures err == nil ==> forall s *SectionProperties, k int :: {s.HeaderReferences[k]} allocated(s) && old(isFirstSect(d.Body.Elements, s)) && old(hdrFirstAt(s.HeaderReferences, k, string(headerType))) && old(hdrCanon(s.HeaderReferences, d.documentRelationships.Relationships)) ==> hdrCanon(s.HeaderReferences, d.documentRelationships.Relationships)
 //@ ensures err == nil ==> forall s *SectionProperties :: {s.FooterReferences} allocated(s) && old(isFirstSect(d.Body.Elements, s)) && old(ftrCanon(s.FooterReferences, d.documentRelationships.Relationships)) ==> ftrCanon(s.FooterReferences, d.documentRelationships.Relationships)
 //@ ensures unchangedExcept("map:string:[]byte", "Relationships.Relationships", "Relationship.*", "ContentTypes.Overrides", "Override.*", "Body.Elements", "cell:any", "SectionProperties.XmlnsR", "SectionProperties.HeaderReferences", "HeaderFooterReference.ID", "cell:*HeaderFooterReference")
+// (C02, package-wide invariant docRelsResolve - zz_contracts_verif_pkg.go) every internal relationship of the list still names a part that is
+// present: the (found or new) relationship's target is the part just stored, relative to word/; earlier entries and parts stay
+//@ ensures err == nil && old(docRelsResolve(d)) ==> docRelsResolve(d)
 
 //@ func (*Document).AddFooterWithPageNumber
 //@ props C11, C02
@@ -500,6 +509,9 @@ package document
 //@ ensures err == nil ==> forall s *SectionProperties, k int :: {s.FooterReferences[k]} allocated(s) && old(isFirstSect(d.Body.Elements, s)) && old(ftrFirstAt(s.FooterReferences, k, string(footerType))) && old(ftrCanon(s.FooterReferences, d.documentRelationships.Relationships)) ==> ftrCanon(s.FooterReferences, d.documentRelationships.Relationships)
 //@ ensures err == nil ==> forall s *SectionProperties :: {s.HeaderReferences} allocated(s) && old(isFirstSect(d.Body.Elements, s)) && old(hdrCanon(s.HeaderReferences, d.documentRelationships.Relationships)) ==> hdrCanon(s.HeaderReferences, d.documentRelationships.Relationships)
 //@ ensures unchangedExcept("map:string:[]byte", "Relationships.Relationships", "Relationship.*", "ContentTypes.Overrides", "Override.*", "Body.Elements", "cell:any", "SectionProperties.XmlnsR", "SectionProperties.FooterReferences", "FooterReference.ID", "cell:*FooterReference")
+// (C02, package-wide invariant docRelsResolve - zz_contracts_verif_pkg.go) every internal relationship of the list still names a part that is
+// present: the (found or new) relationship's target is the part just stored, relative to word/; earlier entries and parts stay
+//@ ensures err == nil && old(docRelsResolve(d)) ==> docRelsResolve(d)
 
 //@ func (*Document).AddFormattedHeader
 //@ props C11, C02
@@ -564,6 +576,9 @@ package document
 //@ ensures err == nil ==> forall s *SectionProperties, k int :: {s.HeaderReferences[k]} allocated(s) && old(isFirstSect(d.Body.Elements, s)) && old(hdrFirstAt(s.HeaderReferences, k, string(headerType))) && old(hdrCanon(s.HeaderReferences, d.documentRelationships.Relationships)) ==> hdrCanon(s.HeaderReferences, d.documentRelationships.Relationships)
 //@ ensures err == nil ==> forall s *SectionProperties :: {s.FooterReferences} allocated(s) && old(isFirstSect(d.Body.Elements, s)) && old(ftrCanon(s.FooterReferences, d.documentRelationships.Relationships)) ==> ftrCanon(s.FooterReferences, d.documentRelationships.Relationships)
 //@ ensures unchangedExcept("map:string:[]byte", "Relationships.Relationships", "Relationship.*", "ContentTypes.Overrides", "Override.*", "Body.Elements", "cell:any", "SectionProperties.XmlnsR", "SectionProperties.HeaderReferences", "HeaderFooterReference.ID", "cell:*HeaderFooterReference")
+// (C02, package-wide invariant docRelsResolve - zz_contracts_verif_pkg.go) every internal relationship of the list still names a part that is
+// present: the (found or new) relationship's target is the part just stored, relative to word/; earlier entries and parts stay
+//@ ensures err == nil && old(docRelsResolve(d)) ==> docRelsResolve(d)
 
 //@ func (*Document).AddFormattedFooter
 //@ props C11, C02
@@ -628,5 +643,8 @@ package document
 //@ ensures err == nil ==> forall s *SectionProperties, k int :: {s.FooterReferences[k]} allocated(s) && old(isFirstSect(d.Body.Elements, s)) && old(ftrFirstAt(s.FooterReferences, k, string(footerType))) && old(ftrCanon(s.FooterReferences, d.documentRelationships.Relationships)) ==> ftrCanon(s.FooterReferences, d.documentRelationships.Relationships)
 //@ ensures err == nil ==> forall s *SectionProperties :: {s.HeaderReferences} allocated(s) && old(isFirstSect(d.Body.Elements, s)) && old(hdrCanon(s.HeaderReferences, d.documentRelationships.Relationships)) ==> hdrCanon(s.HeaderReferences, d.documentRelationships.Relationships)
 //@ ensures unchangedExcept("map:string:[]byte", "Relationships.Relationships", "Relationship.*", "ContentTypes.Overrides", "Override.*", "Body.Elements", "cell:any", "SectionProperties.XmlnsR", "SectionProperties.FooterReferences", "FooterReference.ID", "cell:*FooterReference")
+// (C02, package-wide invariant docRelsResolve - zz_contracts_verif_pkg.go) every internal relationship of the list still names a part that is
+// present: the (found or new) relationship's target is the part just stored, relative to word/; earlier entries and parts stay
+//@ ensures err == nil && old(docRelsResolve(d)) ==> docRelsResolve(d)
 
 // ---- END GENERATED ----
